@@ -1,5 +1,6 @@
 (* Lemmas about the cursor model (model/Offset.v). *)
-From LR Require Import lib.Base model.Iter model.Mixer model.Offset.
+From LR Require Import lib.Base model.Iter model.Mixer model.Offset proofs.MixerP proofs.IterP.
+From Coq Require Import Permutation Sorting.Sorted.
 Open Scope Z_scope.
 
 (* ---- Service.GetJournals: the partition limit *)
@@ -20,3 +21,56 @@ Qed.
 Lemma get_journals_spec {A : Type} (maxl : nat) (m : list A) :
   (0 < maxl)%nat -> get_journals maxl m = if (length m <? maxl)%nat then Some m else None.
 Proof. intros H. unfold get_journals. rewrite get_journals_f_spec by (cbn; lia). reflexivity. Qed.
+
+(* ---- an unfiltered cursor under any interleaving of Get / Next / Release is a list cursor over the merge *)
+Fixpoint spec_run (l : list item) (ops : list cop) : list cobs :=
+  match ops with
+  | [] => []
+  | OGet :: tl => RItem (hd_error l) :: spec_run l tl
+  | ONext :: tl => RUnit :: spec_run (List.tl l) tl
+  | ORelease :: tl => RUnit :: spec_run l tl
+  | _ :: _ => []
+  end.
+Definition plain_op (o : cop) : Prop := o = OGet \/ o = ONext \/ o = ORelease.
+
+Section Script.
+  Variable rest : leaf -> list ev.
+  Variable ok : leaf -> Prop.
+  Variable bk : bool.
+  Hypothesis Hget : forall l, ok l -> ok (fst (l_get l)) /\ rest (fst (l_get l)) = rest l /\ snd (l_get l) = hd_error (rest l).
+  Hypothesis Hnext : forall l, ok l -> ok (l_next l) /\ rest (l_next l) = tl (rest l).
+
+  Lemma run_ops_spec : forall ops fuel t n le v, wf rest ok bk t -> Forall plain_op ops ->
+    run_ops fuel (mkCur t None le v n) ops = spec_run (content rest bk t) ops.
+  Proof.
+    induction ops as [|o ops IH]; intros fuel t n le v W P; [reflexivity|].
+    inversion P as [|? ? Po P']; subst. destruct Po as [ -> | [ -> | -> ] ].
+    - cbn [run_ops cu_get cu_flt cu_tree spec_run].
+      destruct (get_spec rest ok bk Hget t W) as (W1 & C1 & G1 & _).
+      destruct (mx_get t) as [t1 r] eqn:E. cbn [fst snd] in *. unfold cu_with_tree. cbn [cu_flt cu_le cu_valid cu_n].
+      rewrite G1. f_equal. rewrite <- C1. apply IH; assumption.
+    - cbn [run_ops spec_run]. unfold cu_next. cbn [cu_tree cu_flt cu_le cu_valid cu_n].
+      destruct (next_spec rest ok bk Hget Hnext t W) as (W1 & C1 & _). rewrite <- C1. f_equal. apply IH; assumption.
+    - cbn [run_ops spec_run]. unfold cu_release, cu_with_tree. cbn [cu_tree cu_flt cu_le cu_valid cu_n].
+      destruct (release_spec rest ok bk t W) as (W1 & C1). rewrite <- C1. f_equal. apply IH; assumption.
+  Qed.
+End Script.
+
+(* ---- the tree newCursor builds over n >= 1 sources, switched to direction bk *)
+Definition dir_leaf (bk : bool) (s : nat * leaf) : nat * leaf := (fst s, l_set_backward bk (snd s)).
+
+Lemma dir_tree bk (srcs : list (nat * leaf)) : srcs <> [] -> Forall (fun s => leaf_ok false (snd s)) srcs ->
+  exists t0, build_tree (map (fun s => MLeaf (fst s) (snd s)) srcs) = Some t0 /\
+    fresh bk (mx_set_backward bk t0) /\ mx_leaves (mx_set_backward bk t0) = map (dir_leaf bk) srcs.
+Proof.
+  intros N F. destruct (build_tree_spec srcs N) as (t0 & E & Fr & L). exists t0. split; [exact E|].
+  destruct bk.
+  - destruct (set_backward_fresh t0 Fr) as (F1 & L1). split; [exact F1|]. rewrite L1, L. reflexivity.
+  - assert (H : mx_set_backward false t0 = t0).
+    { destruct t0 as [g l|a b st e1 e2 le1 le2 bk'].
+      - cbn. f_equal. apply leaf_set_backward_same. cbn in L. subst srcs. inversion F; assumption.
+      - cbn in Fr. destruct Fr as (_ & _ & _ & _ & _ & ->). reflexivity. }
+    rewrite H. split; [exact Fr|]. rewrite L. clear - F.
+    induction srcs as [|[g l] tl IH]; [reflexivity|]. inversion F; subst. cbn [map]. unfold dir_leaf at 1. cbn [fst snd].
+    rewrite leaf_set_backward_same by assumption. f_equal. apply IH. assumption.
+Qed.
